@@ -7,7 +7,7 @@ from harness import common, trees, treeimpl
 from harness.common import cps, uncps
 from harness.props.c15 import FakeOS
 
-BRIDGE = ('Gemato.Bridge.Tree',)
+BRIDGE = ('Gemato.Bridge.Tree', 'Gemato.Bridge.SrcWalk', 'Gemato.Bridge.SrcUpdate', 'Gemato.Bridge.SrcVerify')
 PROPS = ['Gemato.Props.C16']
 
 
